@@ -20,15 +20,22 @@ class ConnView:
         self.first_reply = None   # token of the first s2c line
 
 
-def extract(netw):
+def extract(netw, skip_role_prefix=None):
+    """skip_role_prefix: connections opened by threads whose role starts with it are left out
+    (the players of a prelude session that ran in the same process before the one under
+    judgement)."""
     views = {}
     for conn in netw.conns:
+        if skip_role_prefix and (conn.client_role or '').startswith(skip_role_prefix):
+            continue
         v = ConnView(conn.cid)
         v.client_role = conn.client_role
         v.accept_index = conn.accept_index
         views[conn.cid] = v
     bufs = {}
     for dec, now, cid, direction, data in netw.sends:
+        if cid not in views:
+            continue
         key = (cid, direction)
         buf = bufs.get(key, b'') + data
         lines, rest = split_lines(buf)
@@ -42,6 +49,11 @@ def extract(netw):
             views[cid].c2s_rest = rest
         else:
             views[cid].s2c_rest = rest
+    # accept order among the connections that are looked at
+    order = sorted((v for v in views.values() if v.accept_index is not None),
+                   key=lambda v: v.accept_index)
+    for i, v in enumerate(order):
+        v.accept_index = i
     for v in views.values():
         if v.c2s:
             t = v.c2s[0][2]
